@@ -41,6 +41,7 @@ const prop = "C31"
 const (
 	kfProxyPool  = "C31-pool-proxy-inner-recipient"
 	kfDelayGroup = "C31-delay-group-member"
+	kfReorg      = "C31-pool-reorg-readmit"
 )
 
 func TestMain(m *testing.M) {
@@ -183,9 +184,15 @@ type txShape struct {
 func (sh txShape) hasR() bool { return sh.Kind != kToExec && sh.Kind != kNone }
 
 type itemSpec struct {
-	Txs   []txShape `json:"txs"`             // 1 = single, 2..4 = group
-	Delay bool      `json:"delay,omitempty"` // pool: submit through EventAddDelayTx instead of EventTx
+	Txs   []txShape `json:"txs"`   // 1 = single, 2..4 = group
+	Route string    `json:"route"` // how the pool meets it: "tx" EventTx, "delay" EventAddDelayTx, "reorg" EventDelBlock of a block holding it
 }
+
+const (
+	rTx    = "tx"
+	rDelay = "delay"
+	rReorg = "reorg"
+)
 
 var nonceCtr int64 // unique nonce per built transaction: chain33's delay cache and dup checks are process-global
 
@@ -524,7 +531,7 @@ func genCase(t *rapid.T, para bool) *caseSpec {
 				it.Txs = append(it.Txs, genShape(t, kinds, c.Blocked, j == aimAt))
 			}
 		}
-		it.Delay = rapid.IntRange(0, 3).Draw(t, "delay") == 0
+		it.Route = rapid.SampledFrom([]string{rTx, rTx, rTx, rDelay, rDelay, rReorg}).Draw(t, "route")
 		c.Items = append(c.Items, it)
 	}
 	return c
@@ -594,23 +601,31 @@ func runCase(t lib.TB, test string, c *caseSpec) {
 				continue
 			}
 			lib.Class("exec_touch_" + it.spec.Txs[j].Kind)
+			if sh := it.spec.Txs[j]; c.Para && sh.Kind == kTransfer && blocked[sh.R.who] {
+				lib.Class("exec_touch_real_recipient_in_payload")
+			}
 			if !active {
 				continue // no constraint below the fork
 			}
-			if r.Ty == types.ExecOk {
-				fail("height %d >= ForkAccountBlacklist %d: item %d member %d (%s) touches a blocked account and was executed ExecOk", height, n.ForkH, i, j, it.spec.Txs[j].Kind)
+			// The rule's contract (executor/execenv.go checkTx / checkTxGroup): a hit is an error before the fee is
+			// taken, i.e. an ExecErr receipt, which keeps the transaction out of the block (PreExecBlock drops it, a
+			// peer block holding it is refused).  Any other receipt means the transaction stays in a block at a
+			// height where the rule is active: ExecOk is plain success, ExecPack is the normal receipt of
+			// none-driver transactions and in every case charges the fee -- the account has transacted.
+			if r.Ty != types.ExecErr {
+				fail("height %d >= ForkAccountBlacklist %d: item %d member %d (%s) touches a blocked account and got receipt type %d (ExecErr=%d expected): it stays in the block", height, n.ForkH, i, j, it.spec.Txs[j].Kind, r.Ty, types.ExecErr)
 			}
-			if r.Ty == types.ExecPack {
-				lib.Class("exec_touching_tx_packed_not_ok")
-			}
-			if wr.Ty == types.ExecOk {
-				lib.Class("exec_witness_ok")
+			if wr.Ty != types.ExecErr { // witness: without the blacklist the same transaction is packed
+				lib.Class("exec_witness_packed")
+				if wr.Ty == types.ExecOk {
+					lib.Class("exec_witness_execok")
+				}
 				if it.deep {
 					lib.Class("exec_nontrivial")
 					lib.NonTrivialCase(map[string]interface{}{"level": "exec", "para": c.Para, "fork": n.ForkH, "height": height, "blocked": c.Blocked, "item": it.spec})
 				}
 			} else {
-				lib.Class("exec_witness_not_ok_" + it.spec.Txs[j].Kind)
+				lib.Class("exec_witness_not_packed_" + it.spec.Txs[j].Kind)
 			}
 		}
 	}
@@ -618,13 +633,36 @@ func runCase(t lib.TB, test string, c *caseSpec) {
 	// ---- pool: every item on its own, at the node's (fixed) height
 	below := n.height+1 < n.ForkH // the pool judges a transaction for the next block
 	for i, it := range items {
-		if it.spec.Delay {
-			lib.Class("pool_delay_item")
+		lib.Class("pool_route_" + it.spec.Route)
+		inPool := func() bool {
+			l, err := n.mock.GetAPI().GetMempool(&types.ReqGetMempool{IsAll: true})
+			if err != nil {
+				lib.Inconclusive("GetMempool: %v", err)
+			}
+			for _, tx := range l.GetTxs() {
+				if bytes.Equal(tx.Hash(), it.pool.Hash()) {
+					return true
+				}
+			}
+			return false
 		}
 		send := func() error {
-			if it.spec.Delay {
+			switch it.spec.Route {
+			case rDelay:
 				_, err := n.mock.GetAPI().SendDelayTx(&types.DelayTx{Tx: it.pool, EndDelayTime: n.height + 100000}, true)
 				return err
+			case rReorg:
+				// what the blockchain module sends when it disconnects the tip block; the mempool handles its
+				// messages one at a time, so the GetMempool that follows sees the result
+				blk := &types.Block{Height: n.height, BlockTime: n.btime, Txs: it.expanded}
+				cli := n.mock.GetClient()
+				if err := cli.Send(cli.NewMessage("mempool", types.EventDelBlock, &types.BlockDetail{Block: blk}), false); err != nil {
+					lib.Inconclusive("EventDelBlock: %v", err)
+				}
+				if !inPool() {
+					return fmt.Errorf("not re-admitted")
+				}
+				return nil
 			}
 			_, err := n.mock.GetAPI().SendTx(it.pool)
 			return err
@@ -638,7 +676,7 @@ func runCase(t lib.TB, test string, c *caseSpec) {
 		}
 		// leave the pool as it was before judging (a failing case is re-run by the shrinker); delay-cache entries
 		// cannot be removed, their nonces are unique
-		if (admitted || witness) && !it.spec.Delay {
+		if (admitted || witness) && it.spec.Route != rDelay {
 			_ = n.mock.GetAPI().RemoveTxsByHashList(&types.TxHashList{Hashes: [][]byte{it.pool.Hash()}})
 		}
 		if !it.touchAny {
@@ -651,10 +689,12 @@ func runCase(t lib.TB, test string, c *caseSpec) {
 		switch {
 		case admitted && it.proxyRcp && lib.Known(kfProxyPool):
 			lib.ExcludedKnown(kfProxyPool)
-		case admitted && it.spec.Delay && it.tailOnly && lib.Known(kfDelayGroup):
+		case admitted && it.spec.Route == rDelay && it.tailOnly && lib.Known(kfDelayGroup):
 			lib.ExcludedKnown(kfDelayGroup)
+		case admitted && it.spec.Route == rReorg && lib.Known(kfReorg):
+			lib.ExcludedKnown(kfReorg)
 		case admitted:
-			fail("pool at height %d (ForkAccountBlacklist %d, exec check %v, delay=%v) admitted item %d which touches a blocked account", n.height, n.ForkH, !n.DisableExecCheck, it.spec.Delay, i)
+			fail("pool at height %d (ForkAccountBlacklist %d, exec check %v, route %s) admitted item %d which touches a blocked account", n.height, n.ForkH, !n.DisableExecCheck, it.spec.Route, i)
 		case witness:
 			lib.Class("pool_witness_admitted")
 			if it.deep {
